@@ -30,12 +30,13 @@ func zzM_parseSingleActionList(str string) ([]*action, error) {
 	return nil, errors.New("unknown action: " + str)
 }
 
-// zzConn delivers a byte stream in nondeterministic increments.
+// zzConn delivers a byte stream in pieces: it is cut at the given offsets (ascending), each Read
+// returns the bytes up to the next cut.
 type zzConn struct {
-	data     []byte
-	pos      int
-	maxChunk int
-	written  []byte
+	data    []byte
+	pos     int
+	cuts    []int
+	written []byte
 }
 
 func (c *zzConn) Read(p []byte) (int, error) {
@@ -44,10 +45,9 @@ func (c *zzConn) Read(p []byte) (int, error) {
 		return 0, io.EOF
 	}
 	n := rest
-	if c.maxChunk > 0 && zzv.Bool() {
-		n = 1 + zzv.Below(c.maxChunk)
-		if n > rest {
-			n = rest
+	for _, cut := range c.cuts {
+		if cut > c.pos && cut-c.pos < n {
+			n = cut - c.pos
 		}
 	}
 	if n > len(p) {
@@ -57,6 +57,37 @@ func (c *zzConn) Read(p []byte) (int, error) {
 	c.pos += n
 	return n, nil
 }
+
+// zzCuts chooses up to k cut offsets for a request among the places where framing matters: inside
+// each line, between its CR and LF, right after it, after the first byte and before the last one.
+func zzCuts(req string, k int) []int {
+	cand := []int{1}
+	start := 0
+	for i := 0; i+1 < len(req); i++ {
+		if req[i] == '\r' && req[i+1] == '\n' {
+			if mid := (start + i) / 2; mid > start {
+				cand = append(cand, mid)
+			}
+			cand = append(cand, i+1, i+2)
+			start = i + 2
+		}
+	}
+	if len(req) > 1 {
+		cand = append(cand, len(req)-1)
+	}
+	var cuts []int
+	from := 0
+	for c := 0; c < k; c++ {
+		j := zzv.Choose(from, len(cand))
+		if j == len(cand) {
+			break
+		}
+		cuts = append(cuts, cand[j])
+		from = j + 1
+	}
+	return cuts
+}
+
 func (c *zzConn) Write(p []byte) (int, error) {
 	c.written = append(c.written, p...)
 	return len(p), nil
@@ -127,7 +158,7 @@ func zzH_C16_http() {
 		body = string(bb)
 		req += body
 	}
-	conn := &zzConn{data: []byte(req), maxChunk: zzv.CfgInt("chunk")}
+	conn := &zzConn{data: []byte(req), cuts: zzCuts(req, zzv.CfgInt("cuts"))}
 	resp := server.handleHttpRequest(conn)
 	zzv.Reach("answered")
 	zzv.Observe("resplen", len(resp))
@@ -157,6 +188,13 @@ func zzH_C16_http() {
 			ok = err == nil && len(want) == len(acts) && len(acts) > 0
 		}
 		zzv.Assert("delivery-needs-valid-request", ok)
+	}
+	// a well-formed, authorised POST is executed however the bytes are cut into reads: the parsed
+	// action list reaches the channel and the answer is 200
+	if method == 2 && authorised && complete && clenValid && clen >= 1 && len(body) >= clen {
+		if want, err := zzM_parseSingleActionList(strings.Trim(body[:clen], "\r\n")); err == nil && len(want) > 0 {
+			zzv.Assert("valid-post-executed-under-any-framing", delivered == 1 && strings.HasPrefix(resp, "HTTP/1.1 200"))
+		}
 	}
 	if method == 2 && authorised && complete && clenValid && clen >= 1 && len(body) < clen {
 		zzv.Assert("incomplete-body-rejected", strings.HasPrefix(resp, "HTTP/1.1 400") && delivered == 0)
